@@ -205,8 +205,39 @@ def _worker(args):
         mod = sys.modules.get(modname) or __import__(modname, fromlist=["x"])
         sh = mod.run_shard(desc)
         return ("ok", desc, sh.pack())
-    except BaseException:  # noqa: BLE001
-        return ("err", desc, traceback.format_exc())
+    except BaseException as e:  # noqa: BLE001
+        text = traceback.format_exc()
+        if _raised_inside_package(e):
+            # an exception escaping from the code under test while the harness performs an
+            # operation that works on the unchanged tree: the property cannot hold there
+            return ("crash", desc, text[-1500:])
+        return ("err", desc, text)
+
+
+def _raised_inside_package(exc):
+    if isinstance(exc, (AssertionError, KeyboardInterrupt, SystemExit, MemoryError)):
+        return False
+    tb = exc.__traceback__
+    last = None
+    while tb is not None:
+        last = tb
+        tb = tb.tb_next
+    if last is None:
+        return False
+    fn = os.path.realpath(last.tb_frame.f_code.co_filename)
+    return fn.startswith(os.path.realpath(os.path.join(REPO, "jsonpath_rfc9535")) + os.sep)
+
+
+def shard_crash_case(mod, case):
+    """check_case for {"shard": desc}: does running that shard still crash inside the package?"""
+    try:
+        mod.run_shard(case["shard"])
+    except BaseException as e:  # noqa: BLE001
+        if _raised_inside_package(e):
+            return violation("crash-in-package", case, "the harness operation completes",
+                             {"raised": type(e).__name__, "msg": str(e)[:200]}, "crash")
+        raise
+    return None
 
 
 def machinery_error(msg):
@@ -246,6 +277,15 @@ def run_check(mod, tier, seed):
     for status, desc, payload in results:
         if status == "err":
             machinery_error(f"shard {desc!r} crashed:\n{payload}")
+        if status == "crash":
+            case = {"shard": desc}
+            key = case_key(prop, case, "crash")
+            if key not in seen_keys:
+                seen_keys.add(key)
+                total.nfresh += 1
+                fresh.append({"kind": "crash-in-package", "case": case, "expected": "the harness operation completes",
+                              "observed": {"traceback_tail": payload[-600:]}, "obs": "crash", "key": key})
+            continue
         total.states += payload["states"]
         total.transitions += payload["transitions"]
         total.traces += payload["traces"]
@@ -288,8 +328,14 @@ def run_check(mod, tier, seed):
     for v in fresh[:25]:
         # replay twice before reporting: identical observations required
         try:
-            r1 = mod.check_case(v["case"])
-            r2 = mod.check_case(v["case"])
+            if "shard" in v["case"] and v["kind"] == "crash-in-package":
+                r1 = shard_crash_case(mod, v["case"])
+                r2 = shard_crash_case(mod, v["case"])
+                if r1:
+                    r1["observed"] = r2["observed"] = {"raised": r1["observed"]["raised"]}
+            else:
+                r1 = mod.check_case(v["case"])
+                r2 = mod.check_case(v["case"])
         except BaseException:  # noqa: BLE001
             machinery_error("replay crashed:\n" + traceback.format_exc())
         o1 = canon(r1["observed"]) if r1 else None
@@ -405,7 +451,10 @@ def write_evidence(prop, ev):
 
 def replay(mod, path):
     rec = json.load(open(path, encoding="utf8"))
-    v = mod.check_case(rec["case"])
+    if rec.get("kind") == "crash-in-package" and "shard" in rec["case"]:
+        v = shard_crash_case(mod, rec["case"])
+    else:
+        v = mod.check_case(rec["case"])
     if v is None:
         print(f"replay {path}: case passes (no violation)")
         return 0
